@@ -75,7 +75,9 @@ func (p *gcpPicker) Pick(info balancer.PickInfo) (balancer.PickResult, error) {
 				return balancer.PickResult{}, fmt.Errorf(
 					"failed to retrieve affinity key from request message: %v", err)
 			}
-			boundKey = a[0]
+			if len(a) > 0 {
+				boundKey = a[0]
+			}
 		}
 	}
 
